@@ -6,12 +6,16 @@ From CJ Require Import Common.Base C08.Model.
 Record obs := {
   o_err : bool;                          (* the call returned an error *)
   o_ret : N;                             (* tracknx: already tracked; lookup/count: size *)
-  o_tracked : list (regkey * bool);      (* alphabet keys for which RegistrationExists, with Valid *)
+  o_tracked : list (regkey * (bool * N));(* alphabet keys for which RegistrationExists, with Valid and regCount *)
   o_matched : list regkey;               (* alphabet keys returned by GetRegistrations on their phantom *)
   o_counts : list N;                     (* CountRegistrations per alphabet phantom *)
   o_total : N;                           (* TotalRegistrations *)
   o_ntimeouts : N;                       (* len(decoysTimeouts) *)
-  o_nphantoms : N                        (* len(decoys) *)
+  o_nphantoms : N;                       (* len(decoys) *)
+  o_new : list regkey;                   (* registerForDetector calls during the operation *)
+  o_upd : list regkey;                   (* updateInDetector calls during the operation *)
+  o_expvalid : N;                        (* decrease of RegistrationStats.activeRegistrations *)
+  o_statdelta : N                        (* decrease of Stat().activeRegistrations *)
 }.
 
 Record case := {
@@ -23,87 +27,117 @@ Record case := {
 }.
 
 Definition mem_key (k : regkey) (l : list regkey) : bool := existsb (regkey_eqb k) l.
-Fixpoint find_tracked (k : regkey) (l : list (regkey * bool)) : option bool :=
+Fixpoint find_tracked (k : regkey) (l : list (regkey * (bool * N))) : option (bool * N) :=
   match l with
   | [] => None
   | (k', v) :: r => if regkey_eqb k k' then Some v else find_tracked k r
   end.
 
-Definition opt_bool_eqb (a b : option bool) : bool := option_eqb Bool.eqb a b.
+Definition news (l : list event) : list regkey :=
+  flat_map (fun e => match e with EvNew k => [k] | _ => [] end) l.
+Definition upds (l : list event) : list regkey :=
+  flat_map (fun e => match e with EvUpdate k => [k] | _ => [] end) l.
+Definition expvalid (l : list event) : N :=
+  fold_right (fun e n => match e with EvExpired _ v => v + n | _ => n end) 0 l.
 
-Definition check_obs (c : case) (s0 : st) (o : rop) (ob : obs) : bool :=
-  let s := step s0 o in
+Definition check_obs (c : case) (x0 : xst) (o : rop) (ob : obs) : bool :=
+  let s0 := x_base x0 in
+  let x := xstep x0 o in
+  let s := x_base x in
   let '(e, r) := output s0 o in
+  let ev := emits s0 o in
   Bool.eqb e (o_err ob) && (r =? o_ret ob)
   && negb (panicked s)
-  && forallb (fun k => opt_bool_eqb (registration_exists s k) (find_tracked k (o_tracked ob))) (c_keys c)
+  && forallb (fun k => match registration_exists s k, find_tracked k (o_tracked ob) with
+                       | None, None => true
+                       | Some v, Some (v', n) => Bool.eqb v v' && (regcount x k =? n)
+                       | _, _ => false
+                       end) (c_keys c)
   && (N.of_nat (length (o_tracked ob)) =? N.of_nat (length (filter (tracked s) (c_keys c))))
   && forallb (fun k => Bool.eqb (matches s k) (mem_key k (o_matched ob))) (c_keys c)
   && (N.of_nat (length (o_matched ob)) =? N.of_nat (length (filter (matches s) (c_keys c))))
   && list_eqb N.eqb (map (fun p => N.of_nat (count s p)) (c_phantoms c)) (o_counts ob)
   && (N.of_nat (ntracked s) =? o_total ob)
   && (N.of_nat (ntimeouts s) =? o_ntimeouts ob)
-  && (N.of_nat (nphantoms s) =? o_nphantoms ob).
+  && (N.of_nat (nphantoms s) =? o_nphantoms ob)
+  && list_eqb regkey_eqb (news ev) (o_new ob)
+  && list_eqb regkey_eqb (upds ev) (o_upd ob)
+  && (expvalid ev =? o_expvalid ob) && (expvalid ev =? o_statdelta ob).
 
-Fixpoint check_hist (c : case) (s : st) (h : list (rop * obs)) : bool :=
+Fixpoint check_hist (c : case) (x : xst) (h : list (rop * obs)) : bool :=
   match h with
   | [] => true
-  | (o, ob) :: r => check_obs c s o ob && check_hist c (step s o) r
+  | (o, ob) :: r => check_obs c x o ob && check_hist c (xstep x o) r
   end.
 
 Definition chk_model (c : case) : bool :=
   (c_unused_ns c =? timeout_unused) && (c_active_ns c =? timeout_active)
-  && check_hist c init (c_hist c).
+  && check_hist c xinit (c_hist c).
 
-(* the ghost semantics (the specification itself, no table) evaluated next to the
-   real observations: after every operation the implementation tracks exactly the
-   alphabet registrations whose ghost life is Some, and matches exactly those that
-   were validated during that life *)
-Definition gst := list (regkey * (life * bool)).        (* per alphabet key: life, validated *)
+(* The ghost semantics (the specification itself, no table) evaluated next to the real
+   observations: after every operation the implementation tracks exactly the alphabet
+   registrations whose ghost life is Some, matches exactly those validated during that life,
+   shows the ghost's regCount, and has sent exactly the notifications the history prescribes. *)
+Record gk := { g_key : regkey; g_life : life; g_valid : bool; g_count : N }.
 
-Definition gst_step (g : gst) (o : rop) : gst :=
-  map (fun kv : regkey * (life * bool) =>
-         let '(k, (l, v)) := kv in
-         let l' := gstep k l o in
-         let v' := match l' with
-                   | None => false
-                   | Some _ => match o with
-                               | Validate k' => if regkey_eqb k k' then true else match l with Some _ => v | None => false end
-                               | ValidateStale k' => match l with Some _ => v | None => regkey_eqb k k' end
-                               | _ => match l with Some _ => v | None => false end
-                               end
-                   end in
-         (k, (l', v'))) g.
+Definition gk_step (o : rop) (g : gk) : gk :=
+  {| g_key := g_key g;
+     g_life := gstep (g_key g) (g_life g) o;
+     g_valid := snd (gvstep (g_key g) (g_life g, g_valid g) o);
+     g_count := snd (gcstep (g_key g) (g_life g, g_count g) o) |}.
 
-Definition check_spec_obs (g : gst) (ob : obs) : bool :=
-  forallb (fun kv : regkey * (life * bool) =>
-             let '(k, (l, v)) := kv in
-             Bool.eqb (is_some l) (is_some (find_tracked k (o_tracked ob)))
-             && Bool.eqb (is_some l && v) (mem_key k (o_matched ob))) g.
+Definition g_find (k : regkey) (gs : list gk) : option gk := find (fun g => regkey_eqb k (g_key g)) gs.
 
-Fixpoint check_hist_spec (g : gst) (h : list (rop * obs)) : bool :=
-  match h with
-  | [] => true
-  | (o, ob) :: r => let g' := gst_step g o in check_spec_obs g' ob && check_hist_spec g' r
+(* gemits, from the per-key ghost states of the alphabet *)
+Definition g_emits (gs : list gk) (o : rop) : list regkey * list regkey :=
+  match o with
+  | Validate k => (match g_find k gs with
+                   | Some g => if enabled (k_tr k) && negb (g_valid g) then [k] else []
+                   | None => [] end, [])
+  | ValidateStale k => (match g_find k gs with
+                        | Some g => if enabled (k_tr k) && negb (is_some (g_life g)) then [k] else []
+                        | None => [] end, [])
+  | MarkActive k => ([], match g_find k gs with
+                         | Some g => if is_some (g_life g) then [k] else []
+                         | None => [] end)
+  | _ => ([], [])
   end.
 
-Definition chk_spec (c : case) : bool :=
-  check_hist_spec (map (fun k => (k, (None, false))) (c_keys c)) (c_hist c).
+Definition check_spec_obs (gs0 gs : list gk) (o : rop) (ob : obs) : bool :=
+  forallb (fun g =>
+             match g_life g, find_tracked (g_key g) (o_tracked ob) with
+             | None, None => true
+             | Some _, Some (v, n) => Bool.eqb (g_valid g) v && (g_count g =? n)
+             | _, _ => false
+             end
+             && Bool.eqb (is_some (g_life g) && g_valid g) (mem_key (g_key g) (o_matched ob))) gs
+  && (let '(nw, up) := g_emits gs0 o in
+      list_eqb regkey_eqb nw (o_new ob) && list_eqb regkey_eqb up (o_upd ob)).
+
+Fixpoint check_hist_spec (gs : list gk) (h : list (rop * obs)) : bool :=
+  match h with
+  | [] => true
+  | (o, ob) :: r => let gs' := map (gk_step o) gs in check_spec_obs gs gs' o ob && check_hist_spec gs' r
+  end.
+
+Definition ginit (c : case) : list gk :=
+  map (fun k => {| g_key := k; g_life := None; g_valid := false; g_count := 0 |}) (c_keys c).
+
+Definition chk_spec (c : case) : bool := check_hist_spec (ginit c) (c_hist c).
 
 Definition chk (c : case) : bool := chk_model c && chk_spec c.
 
 (* diagnostics: index of the first operation whose observation differs from the model / from the ghost *)
-Fixpoint first_bad (c : case) (s : st) (i : nat) (h : list (rop * obs)) : option nat :=
+Fixpoint first_bad (c : case) (x : xst) (i : nat) (h : list (rop * obs)) : option nat :=
   match h with
   | [] => None
-  | (o, ob) :: r => if check_obs c s o ob then first_bad c (step s o) (S i) r else Some i
+  | (o, ob) :: r => if check_obs c x o ob then first_bad c (xstep x o) (S i) r else Some i
   end.
-Fixpoint first_bad_spec (g : gst) (i : nat) (h : list (rop * obs)) : option nat :=
+Fixpoint first_bad_spec (gs : list gk) (i : nat) (h : list (rop * obs)) : option nat :=
   match h with
   | [] => None
-  | (o, ob) :: r => let g' := gst_step g o in
-                    if check_spec_obs g' ob then first_bad_spec g' (S i) r else Some i
+  | (o, ob) :: r => let gs' := map (gk_step o) gs in
+                    if check_spec_obs gs gs' o ob then first_bad_spec gs' (S i) r else Some i
   end.
 Definition where_bad (c : case) : option nat * option nat :=
-  (first_bad c init 0 (c_hist c),
-   first_bad_spec (map (fun k => (k, (None, false))) (c_keys c)) 0 (c_hist c)).
+  (first_bad c xinit 0 (c_hist c), first_bad_spec (ginit c) 0 (c_hist c)).
